@@ -14,11 +14,13 @@ EDGE_RESULTS = ["INF", "NAN", "ZERO", "ONE", "NONE"]
 AWKWARD_SUBJECTS = [
     "", " ", 'a"b', "subject_name", "a b", "A", "a", "s-1", "s_1", "0", "1.5", "nan", "None", "'q'", "ü", "日本", "x,y", "#c", "a\\b", '"', "  lead", "trail  ",
     "panoptica_aggregator_tmp", "-", "--", "é-ñ",
+    "Zoe\u0308 Mu\u0308ller", "Zo\u00eb M\u00fcller", "e\u0301", "\u00e9",  # decomposed and composed spellings of the same text
+    "Smith, 'Bob', 01", "a;b;c", "x, 'y', z", "NA", "null", "N/A", "<NA>", "#N/A", "1e5", "0x10", "True",
 ]
 NAME_ALPHABET = "abcxyzABZ019-_ .,'\"#/\\üß日Ω+=()"
 GROUP_ALPHABET = "abcxyzABZ019-_ .'\"#üßΩ+()"
 AWKWARD_GROUPS = ["a-b", "a_b", "a b", "UPPER", "x-", "-x", "tp", "sq-dsc", "ungrouped", "subject_name", "g\"q", "ß", "1", "a--b", "Mixed Case-1",
-                  "", " ", "-", "\"quoted\"", "İstanbul", "x-tp", "across_groups"]
+                  "", " ", "-", "\"quoted\"", "İstanbul", "x-tp", "across_groups", "a,b", "g;1", "na", "e\u0301"]
 
 
 def rand_name(rng: random.Random, alphabet=NAME_ALPHABET, lo=1, hi=8) -> str:
@@ -221,4 +223,6 @@ def gen_input(rng: random.Random, spec: dict, *, max_side=8, max_inst=4, allow_1
         if rng.random() < 0.05:
             out["alias"] = True
             out["ref"] = list(out["pred"])
+        if rng.random() < 0.12:
+            out["byteorder"] = ">"  # non-native (big-endian) integers, e.g. read from a NIfTI/raw file
     return out
